@@ -42,6 +42,7 @@ def check(chk):
     game = repo.cls(GM, G)
     run = repo.func(GM, G + "._run")
     _drain_chain(chk, repo)
+    _end_requests_unconditional(chk, repo)
     from sa.helpers import game_ended_only_through_its_api
     game_ended_only_through_its_api(chk, "PAIR-7")
     _game_end_waits(chk)
@@ -466,6 +467,34 @@ def check(chk):
     chk.ob("PAIR-7", "game_ended is the last thing the game run posts", bool(last), eg_.where(), construct=eg_.ident, text="game_ended last")
 
 
+def _end_requests_unconditional(chk, repo):
+    """END-6: a request to end the game or the ball is never swallowed.  Game.end_game marks the game as ending and asks for the ball to
+    end on every returning path (the ending flag may be set already while the ball is still running: an earlier request that arrived
+    while the next turn was starting, or a pending extra ball, leaves `ending` set and the ball in play - the second request must still
+    end it).  Game.end_ball releases the ball-end wait on every returning path."""
+    f = repo.func(GM, "Game.end_game")
+    chk.analysed(f)
+    cfg = f.cfg()
+    sets = [n.id for n in cfg.nodes if n.kind == "stmt" and isinstance(n.ast, ast.Assign) and src(n.ast.targets[0]) == "self.ending" and
+            src(n.ast.value) == "True"]
+    ends = [n.id for n, c in cfg.calls_named("end_ball") if dotted(c.func.value) == "self"]
+    chk.need(sets and ends, "END-6", "Game.end_game sets the ending flag and asks for the ball to end", f)
+    already = [n.id for n in cfg.nodes if n.kind == "branch" and src(n.ast) == "self.ending" and n.value is True]
+    for what, via in (("marks the game as ending", sets + already), ("asks for the ball to end (self.end_ball())", ends)):
+        path = cfg.must_pass(cfg.entry.id, via)
+        chk.ob("END-6", "every returning path of Game.end_game " + what, path is None, f.where(), construct=f.ident,
+               detail="a request that is dropped because the flag is already set leaves the ball in play: no ball_ended, no game_ended",
+               text="end_game " + what, path=cfg.fmt_path(path, f) if path else None, nontrivial=True)
+    g = repo.func(GM, "Game.end_ball")
+    chk.analysed(g)
+    gcfg = g.cfg()
+    rel = [n.id for n, c in gcfg.calls_named("set") if "_end_ball_event" in src(c.func) or "end_ball" in src(c.func)]
+    chk.need(rel, "END-6", "Game.end_ball releases the ball-end wait (<event>.set())", g)
+    path = gcfg.must_pass(gcfg.entry.id, rel)
+    chk.ob("END-6", "every returning path of Game.end_ball releases the ball-end wait", path is None, g.where(), construct=g.ident,
+           text="end_ball releases the wait", path=gcfg.fmt_path(path, g) if path else None, nontrivial=True)
+
+
 def _drain_chain(chk, repo):
     """DRAIN-6: the route from a ball entering a drain device to the game's ball count: the ball controller listens on the entrance event
     of every device tagged drain or trough (exactly those), relays the *unclaimed* balls as `ball_drain`, and the game subtracts what the
@@ -542,6 +571,9 @@ def _game_end_waits(chk):
 def battery():
     from sa.battery import M
     return [
+        M("second end_game request ignored", GM, "        self.ending = True\n        self.end_ball()\n\n    def _game_ending_completed", "        if self.ending:\n            return\n        self.ending = True\n        self.end_ball()\n\n    def _game_ending_completed", "END-6"),
+        M("twin: ending flag set only when clear", GM, "        self.ending = True\n        self.end_ball()\n\n    def _game_ending_completed", "        if not self.ending:\n            self.ending = True\n        self.end_ball()\n\n    def _game_ending_completed", None),
+        M("end_ball ignored while ending", GM, "        self._end_ball_event.set()\n\n    async def _end_ball", "        if not self.ending:\n            self._end_ball_event.set()\n\n    async def _end_ball", "END-6"),
         M("ball_ended before ball_ending", GM, "        await self.machine.events.post_queue_async('ball_ending')", "        await self.machine.events.post_async('ball_ended')\n        await self.machine.events.post_queue_async('ball_ending')", "TRACE-1"),
         M("turn end events skipped on game end", GM, "            await self._end_player_turn()\n\n            if self.slam_tilted or", "            if not self.ending:\n                await self._end_player_turn()\n\n            if self.slam_tilted or", "TRACE-1"),
         M("game_starting plain event", GM, "await self.machine.events.post_queue_async('game_starting', game=self)", "await self.machine.events.post_async('game_starting', game=self)", "TRACE-1"),
